@@ -248,6 +248,10 @@ def gen_c15(rnd, n, thorough=False):
                 img = bytes(b)
             add('rawfile', 'rawfile f %s' % hx(img))
             add('hopen', 'hopen f')
+            if kind not in ('file_huge_header', 'file_count_page') and rnd.chance(0.5):
+                # a rejected file is neither left open nor locked: the next Open does not hang
+                add('lockfail', 'lockfail f')
+                add('lockfail', 'lockfail f')
             for _ in range(rnd.randint(2, 5)):
                 a = rnd.pick([-1] + list(range(k)))
                 for fr, un in windows(rnd, layout, a, now, 1):
@@ -309,6 +313,15 @@ def gen_c06(rnd, n, thorough=False):
             rnow = now - rnd.randint(1, 3 * layout[0][0]) if rnd.chance(0.25) else now      # a reader whose clock lags the writer's
             lines.append("clixread f %d %d %d" % (max(fr, 0), max(un, 0), rnow))
         cases.append({'id': 'c06-%d' % c, 'lines': lines, 'tags': {'layout': lname, 'writer': writer, 'levels': k, 'method': m}})
+        if k >= 2 and rnd.chance(0.15):
+            # the same archives declared in another order: whispertool writes no file for such a list
+            # (the reference implementation would sort it; a file with a header describing another
+            # order than its own would not be read alike by the two)
+            sh = list(layout)
+            while sh == list(layout):
+                rnd.shuffle(sh)
+            cases.append({'id': 'c06-%d-order' % c, 'lines': ["create f %s m %d x %08x" % (fmt_layout(sh), m, xff), "hdrof f"],
+                          'tags': {'layout': lname, 'writer': 'whispertool_unsorted', 'levels': k, 'method': m}})
     return cases
 
 
